@@ -45,7 +45,7 @@ def run(spec, out):
 
     from vmon import boot, gen
 
-    b = boot.boot()
+    b = boot.boot(order=spec.get("order"))
     if b.errors:
         out["fatal"] = f"import errors {b.errors[:2]}"
         return
